@@ -334,6 +334,9 @@ func cmdCheck(args []string) int {
 			if o.Kind == "inv-preserve" && items[i].VC != nil && items[i].VC.noReturnSeen {
 				continue // a back edge after os.Exit / log.Fatal is legitimately dead
 			}
+			if o.Kind == "site" && strings.Contains(o.Name, "#site:site:continue:") {
+				continue // one obligation per back edge: edges the compiler keeps but no path takes are legitimately dead
+			}
 			t := *o
 			t.Name = o.Name + "@sanity"
 			t.Cond = not(o.Cond)
@@ -405,6 +408,20 @@ func cmdCheck(args []string) int {
 					// (otherwise the base obligation is simply refuted and is reported on its own)
 					if base := byName[strings.TrimSuffix(o.Name, "@sanity")]; base == nil || base.Res.Status != "unsat" {
 						continue
+					}
+					// one obligation per back edge of a loop: a single dead edge is normal (the compiler keeps edges no path
+					// takes); only when every back edge of the invariant is dead is the loop body itself unreachable
+					if j := strings.Index(o.Name, "@latch"); j >= 0 {
+						allDead := true
+						for k := range items {
+							n2 := items[k].Obl.Name
+							if strings.HasPrefix(n2, o.Name[:j]+"@latch") && strings.HasSuffix(n2, "@sanity") && items[k].Res.Status != "unsat" {
+								allDead = false
+							}
+						}
+						if !allDead {
+							continue
+						}
 					}
 				}
 				// contradictory assumptions / unreachable return: everything proved about this function is vacuous
